@@ -301,10 +301,97 @@ def confirm_passthrough(mw_i, kind, cookie_i, qs_i, raised, method_i):
     return False
 
 
+def _real_gzip_request(accept_encoding, browser_i=0):
+    from werkzeug.test import EnvironBuilder
+    hdrs = {}
+    if accept_encoding is not None:
+        hdrs['Accept-Encoding'] = accept_encoding
+    ua = [None, 'Mozilla/5.0 (compatible; MSIE 10.0; Windows NT 6.1; Trident/6.0)', 'Mozilla/5.0 (X11; Linux x86_64; rv:109.0) Gecko/20100101 Firefox/115.0'][browser_i]
+    if ua:
+        hdrs['User-Agent'] = ua
+    return Request(EnvironBuilder(path='/', headers=hdrs).get_environ())
+
+
+def _gzip_semantics(out, data0, accepts, pre_encoded=False):
+    """the statement, without any stub: a body labelled gzip decompresses to exactly the original bytes and is only sent
+    to a client that accepts gzip; anything else is the original body"""
+    import gzip
+    sent = b''.join(out.response)
+    if out.headers.get('Content-Encoding') == 'gzip' and not pre_encoded:
+        if not accepts:
+            return False
+        try:
+            if gzip.decompress(sent) != data0:
+                return False
+        except Exception:
+            return False
+        return out.headers.get('Content-Length') == str(len(sent))
+    return sent == data0
+
+
 def confirm_gzip(kind, body_i, ctype_i, q, browser_i, comp_rel, pre_encoded):
+    """no stubs: the real compressor, a real werkzeug Request carrying `gzip` or `gzip;q=0`"""
     if kind in (4, 5, 6, 7):
         return confirm_passthrough(0, kind, 0, 0, False, 0)
+    inner = _inner(kind, body_i, ctype_i)
+    if pre_encoded and kind <= 3:
+        inner.headers['Content-Encoding'] = 'br'
+    data0 = b''.join(inner.response) if kind != 8 else BODIES[body_i] * 2
+    if kind == 8:
+        inner = _inner(kind, body_i, ctype_i)
+    req = _real_gzip_request('gzip' if q > 0 else 'gzip;q=0', browser_i)
+    out = GzipMiddleware().request(lambda: inner, req)
+    return not (out is inner and _gzip_semantics(out, data0, q > 0, pre_encoded and kind <= 3))
+
+
+# ---- one middleware instance, several responses in a row; real Accept-Encoding headers (no stubs at all)
+import hashlib as _hashlib
+SEQ_BODIES = [b'', b'short', b'abcd' * 16000, (b''.join(_hashlib.sha256(b'%d' % i).hexdigest().encode() for i in range(640))),
+              b'the quick brown fox ' * 200, bytes(range(256)) * 8]
+ACC_ENCS = [(None, False), ('gzip', True), ('gzip;q=0', False), ('identity', False), ('*', True), ('gzip;q=0.0, identity', False), ('identity, *;q=0', False),
+            ('deflate, gzip;q=0.5', True), ('', False), ('*;q=0', False)]
+
+
+def _gzip_sequence(b0, b1, b2, a_i):
+    mw = GzipMiddleware()
+    for i, bi in enumerate((b0, b1, b2)):
+        body = SEQ_BODIES[bi]
+        enc, accepts = ACC_ENCS[a_i] if i == 2 else ACC_ENCS[1]
+        inner = Response(body, mimetype='text/plain')
+        out = mw.request(lambda: inner, _real_gzip_request(enc))
+        if out is not inner or out.status_code != 200 or not _gzip_semantics(out, body, accepts):
+            return False
     return True
+
+
+def ob_gzip_sequence(b0: int, b1: int, b2: int, a_i: int) -> bool:
+    with untraced():
+        return _gzip_sequence(b0, b1, b2, a_i)
+
+
+def confirm_gzip_sequence(b0, b1, b2, a_i):
+    """public API: a real application with the middleware, the same three requests through the WSGI client"""
+    from clastic import Application
+    from werkzeug.test import Client
+    import gzip
+    app = Application([('/<int:i>', lambda i: Response(SEQ_BODIES[i], mimetype='text/plain'))] if False else
+                      [('/<i:int>', lambda i: Response(SEQ_BODIES[i], mimetype='text/plain'))], middlewares=[GzipMiddleware()])
+    cl = Client(app, Response)
+    for k, bi in enumerate((b0, b1, b2)):
+        enc, accepts = ACC_ENCS[a_i] if k == 2 else ACC_ENCS[1]
+        resp = cl.get('/%d' % bi, headers=({} if enc is None else {'Accept-Encoding': enc}))
+        sent = resp.get_data()
+        if resp.headers.get('Content-Encoding') == 'gzip':
+            if not accepts:
+                return True
+            try:
+                if gzip.decompress(sent) != SEQ_BODIES[bi]:
+                    return True
+            except Exception:
+                return True
+        elif sent != SEQ_BODIES[bi]:
+            return True
+    return False
 
 
 def end_to_end_sweep(mw_i):
